@@ -427,3 +427,29 @@ func FuzzDecode(f *testing.F) {
 }
 
 var _ = os.Getenv
+
+var fuzzRoots = []string{"All", "Wrap", "Rec", "RecChoice", "Choice", "Leaf"}
+
+// TestFuzzInput pushes crashers found by FuzzDecode through the normal verdict path.
+func TestFuzzInput(t *testing.T) {
+	r := vf.Start(t, prop, "fuzz")
+	s, err := fixed()
+	if err != nil {
+		t.Fatal(err)
+	}
+	for _, p := range vf.FuzzInputs() {
+		vals, err := vf.ReadFuzzInput(p)
+		if err != nil || len(vals) != 2 {
+			r.Note("unreadable fuzz input %s: %v", p, err)
+			continue
+		}
+		rootIdx, doc := vals[0].(int), vals[1].(string)
+		if rootIdx < 0 {
+			rootIdx = -rootIdx
+		}
+		c := docCase{Root: fixschema.Pkg + "." + fuzzRoots[rootIdx%len(fuzzRoots)], Doc: &doc, DocQ: fmt.Sprintf("%q", doc)}
+		r.Eval(true, vf.Hash(c.Root, doc), "fuzz-crasher")
+		r.Journal(c)
+		r.JudgeNoFatal(c, check(s, c))
+	}
+}
